@@ -7,6 +7,7 @@ sequences of every class, all run through the real SequenceParameters."""
 from .. import gen
 from .. import refmodel as M
 from ..tapes import Shim, installed
+from .. import salt as SALT
 
 ID = "C02"
 LEVEL = "exploration"
@@ -58,6 +59,8 @@ def judge(case, rep, S):
         seq = case["s"]
         pat = M.pattern(seq)
     obj = S["SP"](seq)
+    if case["k"] == "seq" and rep.evaluations % 4 == 0:
+        SALT.salt(S, obj, seq, gen.sub_rng(0, "salt", seq), rep, cheap=len(seq) > 150)
     got = obj.get_delta()
     want = M.delta_exact(pat)
     L = len(pat)
